@@ -34,6 +34,7 @@ def handle (line : String) : String :=
       match decomposePQ n tape with
       | .ok (p, q) => s!"ok {p} {q}"
       | .error .tape => "tape"
+      | .error .panic => "panic"
     | _, _ => "bad-op"
   | _ => "bad-op"
 
